@@ -88,6 +88,7 @@ OnMcmc(e) ==
   ELSE IF ~e.obsok THEN <<e.fam \o ".DataTermIsTheJitteredGaussian", "">>
   ELSE IF ~e.lnlikeok THEN <<e.fam \o ".LnLikelihoodDiagnosticIsTheDataTerm", e.kf>>
   ELSE IF ~e.freeok THEN <<e.fam \o ".FreeVariablesAreThePriorsVariables", "">>
+  ELSE IF ~e.termsok THEN <<e.fam \o ".TotalDensityIsThePriorsPlusOneDataTerm", "">>
   ELSE <<"", "">>
 
 Init == tid \in 1..Len(Tr) /\ l = 1 /\ g = [N |-> 0] /\ fails = <<>> /\ dkf = "" /\ kkf = ""
